@@ -123,10 +123,12 @@ structure SInvB (gh : Ghost) (st : St) (pending : List Nat) : Prop where
   term_dead : st.term.freed = true → ¬ ((∃ r, LiveW st.tree 0 r) ∨ 0 ∈ pending) ∧ st.term.appRefs = 0 ∧ gh.term = 0
   simple : SimpleOk st
 
-/-- The state invariant: `SInvB`, and no live window holds more references than the application has taken (no
-    handler is running, so nobody else holds one). -/
+/-- The state invariant: `SInvB`, and no live window holds more references than the application has taken and the
+    library holds itself (no handler is running, so nobody else holds one); the root window, which no dying parent can
+    take a reference from, holds exactly those. -/
 structure SInvG (gh : Ghost) (st : St) (pending : List Nat) : Prop extends SInvB gh st pending where
-  wref : ∀ (i : Nat) (w : Win), LiveW st.tree i w → w.refcount ≤ ((getX st i).appRefs : Int) + (gh.win i : Int)
+  wref : ∀ (i : Nat) (w : Win), LiveW st.tree i w → w.refcount ≤ ((getX st i).appRefs : Int) + (gh.win i : Int) ∧
+    (i = 0 → ((getX st i).appRefs : Int) + (gh.win i : Int) ≤ w.refcount)
 
 /-- The state invariant between two operations. -/
 abbrev SInv (gh : Ghost) (st : St) : Prop := SInvG gh st []
@@ -567,7 +569,8 @@ theorem unrefT_ok {cfg : Cfg} (R : Repaired cfg) {st : St} (inv : SInvB gh st []
       (∀ (i : Nat) (w : Win), st.tree.wins[i]? = some w → w.freed = true → ∃ w', t'.wins[i]? = some w' ∧ w'.freed = true) ∧
       dropped.Nodup ∧
       (∀ (i : Nat) (w' : Win), LiveW t' i w' → ∃ w, LiveW st.tree i w ∧
-        w'.refcount + (if i = x then 1 else 0) + (if i ∈ dropped then 1 else 0) ≤ w.refcount) := by
+        w'.refcount + (if i = x then 1 else 0) + (if i ∈ dropped then 1 else 0) ≤ w.refcount) ∧
+      (∀ (w w' : Win), LiveW st.tree 0 w → LiveW t' 0 w' → w.refcount ≤ w'.refcount + (if x = 0 then 1 else 0)) := by
   have hr1 := inv.rc x xw hl
   obtain ⟨inv0, _⟩ := inv.tinv.set_refcount hl (xw.refcount - 1)
   have hl0 : LiveW (WinTree.set st.tree x { xw with refcount := xw.refcount - 1 }) x { xw with refcount := xw.refcount - 1 } :=
@@ -619,7 +622,22 @@ theorem unrefT_ok {cfg : Cfg} (R : Repaired cfg) {st : St} (inv : SInvB gh st []
         by_cases h0 : (0 : Nat) = x
         · subst h0; exact ⟨_, hl0⟩
         · exact ⟨r, by rw [set_get_ne _ (Ne.symm h0)]; exact hr.1, hr.2⟩
-    refine ⟨?_, hsz, fun i w hw hf => by obtain ⟨w', hw', h1, _⟩ := evs i w hw; exact ⟨w', hw', h1 hf⟩, C.drop.1, ?_⟩
+    refine ⟨?_, hsz, fun i w hw hf => by obtain ⟨w', hw', h1, _⟩ := evs i w hw; exact ⟨w', hw', h1 hf⟩, C.drop.1, ?_, ?_⟩
+    rotate_right
+    · -- the root window is no child: nobody takes a reference from it
+      intro w w' hlw hlw'
+      obtain ⟨w'', hw'', _, h3⟩ := evs 0 w hlw.1
+      have e1 : w'' = w' := by rw [hlw'.1] at hw''; exact (Option.some.inj hw'').symm
+      subst e1
+      obtain ⟨h0x, _, _⟩ := h3 hlw'.2
+      have hxpos : 0 < x := Nat.pos_of_ne_zero (fun e => h0x e.symm)
+      have ht0 : (WinTree.set st.tree x { xw with refcount := 0 }).wins[0]? = some w := by
+        rw [set_get_ne _ (Ne.symm h0x)]; exact hlw.1
+      have hx0 : ¬ x = 0 := fun e => h0x e.symm
+      simp only [hx0, if_false]
+      rcases C.below 0 w hxpos ht0 with ⟨_, h⟩ | ⟨_, h⟩
+      · rw [hlw'.1] at h; cases h; omega
+      · rw [hlw'.1] at h; cases h; show w.refcount ≤ (unlinkedParent w x).refcount + 0; simp [unlinkedParent]
     refine ⟨C.inv, by simp only; rw [hsz]; exact inv.wx_size, ?_, C.dead.1, ?_, ?_, ?_, ?_, ?_, ?_, inv.simple⟩
     · intro i w hli
       cases h0 : st.tree.wins[i]? with
@@ -700,7 +718,19 @@ theorem unrefT_ok {cfg : Cfg} (R : Repaired cfg) {st : St} (inv : SInvB gh st []
         · simp only [hd', if_false]
           rcases e.2.2.1 hli.2 with h | ⟨h, _, _⟩ <;> omega
   · simp only [hz, if_false, pure_ok]
-    refine ⟨_, [], [], rfl, ?_, by simp only [set_size], ?_, List.nodup_nil, ?_⟩
+    refine ⟨_, [], [], rfl, ?_, by simp only [set_size], ?_, List.nodup_nil, ?_, ?_⟩
+    rotate_right
+    · intro w w' hlw hlw'
+      by_cases h0x : x = 0
+      · subst h0x
+        have := LiveW.unique hlw' hl0; subst this
+        have := LiveW.unique hlw hl; subst this
+        simp only [if_true]
+        show w.refcount ≤ w.refcount - 1 + 1
+        omega
+      · have : LiveW st.tree 0 w' := ⟨by rw [← set_get_ne _ h0x]; exact hlw'.1, hlw'.2⟩
+        have := LiveW.unique hlw this; subst this
+        simp only [h0x, if_false]; omega
     rotate_left
     · intro i w hw hf
       by_cases hix : i = x
@@ -793,7 +823,7 @@ theorem unrefW_ok {cfg : Cfg} (R : Repaired cfg) {st : St} (inv : SInv gh st) {x
   have hxlt : x < st.wx.size := by rw [inv.wx_size]; exact hl.lt
   have inv0 : SInvB gh (setX st x { getX st x with appRefs := (getX st x).appRefs - 1 }) [] :=
     inv.toSInvB.of_wx rfl rfl rfl rfl rfl (setX_map_pen _ rfl)
-  obtain ⟨t', dead, dropped, ht, invG, hsz, hfr, hnd, hcnt⟩ := unrefT_ok R inv0 (x := x) (xw := xw) hl
+  obtain ⟨t', dead, dropped, ht, invG, hsz, hfr, hnd, hcnt, hrootc⟩ := unrefT_ok R inv0 (x := x) (xw := xw) hl
   have hf := consume_frame dropped { (setX st x { getX st x with appRefs := (getX st x).appRefs - 1 }) with tree := t' }
   have invC : SInvB gh (consume { (setX st x { getX st x with appRefs := (getX st x).appRefs - 1 }) with tree := t' } dropped) dead :=
     invG.of_wx hf.1 hf.2.1 hf.2.2.1 hf.2.2.2.1 hf.2.2.2.2.1 (consume_map_pen dropped _)
@@ -822,15 +852,27 @@ theorem unrefW_ok {cfg : Cfg} (R : Repaired cfg) {st : St} (inv : SInv gh st) {x
   · intro i w' hli
     rw [htree] at hli
     obtain ⟨w, hlw, hle⟩ := hcnt i w' hli
-    have h1 := inv.wref i w hlw
+    have h1 := (inv.wref i w hlw).1
     have h2 := happ i
-    by_cases hxi : x = i
-    · subst hxi
-      simp only [if_true] at hle h2
-      by_cases hd' : x ∈ dropped <;> simp only [hd', if_true, if_false] at hle h2 <;> omega
-    · have hix : ¬ i = x := fun h => hxi h.symm
-      simp only [hxi, hix, if_false] at hle h2
-      by_cases hd' : i ∈ dropped <;> simp only [hd', if_true, if_false] at hle h2 <;> omega
+    refine ⟨?_, ?_⟩
+    · by_cases hxi : x = i
+      · subst hxi
+        simp only [if_true] at hle h2
+        by_cases hd' : x ∈ dropped <;> simp only [hd', if_true, if_false] at hle h2 <;> omega
+      · have hix : ¬ i = x := fun h => hxi h.symm
+        simp only [hxi, hix, if_false] at hle h2
+        by_cases hd' : i ∈ dropped <;> simp only [hd', if_true, if_false] at hle h2 <;> omega
+    · intro hi0
+      subst hi0
+      have h3 := (inv.wref 0 w hlw).2 rfl
+      have h4 := hrootc w w' hlw hli
+      have h5 := (happ 0).1
+      by_cases hx0 : x = 0
+      · subst hx0
+        simp only [if_true] at h4 h5
+        omega
+      · simp only [hx0, if_false] at h4 h5
+        omega
   · intro i w hw hfw
     rw [htree]
     exact hfr i w hw hfw
